@@ -7,7 +7,7 @@ the history, and the oracle is an independent linear chain-of-responsibility int
 import abc
 import random
 from dataclasses import dataclass
-from typing import Annotated, List, NewType, Optional
+from typing import Annotated, ForwardRef, List, NewType, Optional
 
 from adaptix import AdornedRetort, CannotProvide, Chain, DebugTrail, P, Provider, ProviderNotFoundError, Retort, bound, dumper, loader
 from adaptix._internal.morphing.request_cls import DebugTrailRequest, DumperRequest, LoaderRequest, StrictCoercionRequest
@@ -63,10 +63,11 @@ NtA = NewType("NtA", A)
 AnnA = Annotated[A, "m"]
 # request types whose origin is not the class itself: an exact-class predicate for A must not match them, the
 # builtin tail unwraps them and re-sends the request for A from the top of the recipe
+FWD = ForwardRef("NoSuchName")     # a request type that cannot be normalised: no exact-type predicate matches it
 TYPES = {"A": A, "B": B, "C1": C1, "int": int, "str": str, "M": M, "ListA": ListA, "RN": RN,
-         "OptA": Optional[A], "AnnA": AnnA, "NtA": NtA}
+         "OptA": Optional[A], "AnnA": AnnA, "NtA": NtA, "Fwd": FWD}
 TNAME = {A: "A", B: "B", C1: "C1", int: "int", str: "str", M: "M", ListA: "ListA", Abs: "Abs", RN: "RN",
-         Optional[RN]: "OptRN", type(None): "None", Optional[A]: "OptA", AnnA: "AnnA", NtA: "NtA"}
+         Optional[RN]: "OptRN", type(None): "None", Optional[A]: "OptA", AnnA: "AnnA", NtA: "NtA", FWD: "Fwd"}
 MODELS = {"M": (M, [("x", "int"), ("a", "A"), ("s", "str")]), "RN": (RN, [("v", "A"), ("next", "OptRN")])}
 M_FIELDS = MODELS["M"][1]
 
@@ -108,6 +109,7 @@ PREDS = {
     "P[A]^P.a": (lambda: P[A] ^ P.a, lambda st: (_last(st)[0] == "A") != (_last(st)[1] == "a"), False),
     "P[ListA][A]": (lambda: P[List[A]][A], lambda st: len(st) >= 2 and st[-2][0] == "ListA" and _last(st)[0] == "A", False),
     "RN": (lambda: RN, lambda st: _last(st)[0] == "RN", True),
+    "None": (lambda: None, lambda st: _last(st)[0] == "None", True),
     "next": (lambda: "next", lambda st: _last(st)[1] == "next", False),
     "P[RN].next": (lambda: P[RN].next, lambda st: len(st) >= 2 and st[-2][0] == "RN" and _last(st)[1] == "next", False),
     "P[RN].v": (lambda: P[RN].v, lambda st: len(st) >= 2 and st[-2][0] == "RN" and _last(st)[1] == "v", False),
@@ -193,14 +195,23 @@ def _mark(tag, i):
     return fn
 
 
+_PRED_OBJS = {}     # predicate objects of the current scenario: items naming the same predicate share one object
+
+
+def pred_obj(name):
+    if name not in _PRED_OBJS:
+        _PRED_OBJS[name] = PREDS[name][0]()
+    return _PRED_OBJS[name]
+
+
 def build_item(it, log, inner=None):
     """inner: dict idx -> retort object; filled with the inner retorts built here, and consulted first
     (so that a derived inner retort can be placed into a second outer recipe)."""
     kind = it["kind"]
     i = it["idx"]
     if it["pred"].startswith("any:"):
-        return bound_by_any([PREDS[p][0]() for p in it["pred"][4:].split(";")], Faulty(i, kind, log))
-    pred = PREDS[it["pred"]][0]()
+        return bound_by_any([pred_obj(p) for p in it["pred"][4:].split(";")], Faulty(i, kind, log))
+    pred = pred_obj(it["pred"])
     if kind in ("plain", "first", "last"):
         ch = {"plain": None, "first": Chain.FIRST, "last": Chain.LAST}[kind]
         tag = {"plain": "p", "first": "f", "last": "l"}[kind]
@@ -216,7 +227,7 @@ def build_item(it, log, inner=None):
         return obj if it["pred"] == "ANY" and it.get("unbound") else bound(pred, obj)
     if it.get("pred2"):
         # two nested bounds: the bounding provider has to AND its predicate with the inner one
-        return bound(pred, bound(PREDS[it["pred2"]][0](), Faulty(i, kind, log)))
+        return bound(pred, bound(pred_obj(it["pred2"]), Faulty(i, kind, log)))
     return bound(pred, Faulty(i, kind, log))
 
 
@@ -389,6 +400,8 @@ class Model:
             except NotFound:
                 raise Terminal from None
             return lambda x: None if x is None else el(x)
+        if t == "Fwd":
+            raise Terminal      # the builtin forward-reference provider declines terminally when it cannot evaluate
         if t in ("AnnA", "NtA"):
             # unwrapping providers re-send the request with the last type replaced (same location otherwise);
             # a failure there is an ordinary decline of the unwrapping provider, behind which nothing else serves
@@ -588,6 +601,7 @@ def derived_specs(scn):
 
 
 def execute(scn, refs):  # noqa: C901, PLR0912
+    _PRED_OBJS.clear()
     log = []
     built_inner = {}
     base = build_retort(scn["spec"], log, built_inner)
